@@ -147,6 +147,8 @@ def nesting_product():
     return out
 
 
+# floats whose Python repr is not YAML (repaired defect: tagged floats were dumped as repr)
+FLOATS = ['1.0e-7', '2.0e+10', '.inf', '-.inf', '.nan', '1.5', '-0.0', '1e3', '6.02e23']
 TRICKY = ['x #y', '  lead', 'trail  ', 'a: b', '- x', '[x', '{x', '!tag', '&a', '*a', '#c', 'yes', 'null', '~', '1', '1.5', '0x10', '', ' ', 'multi\nline',
           "it's", '"q"', '@x', '`x', '%x', 'a,b', 'key: v #c', 'x:', ': x', '? x', '| x', '> x', 'tab\tin', 'é', '---', '...', 'a  b', "'", '=', '<<']
 
@@ -162,6 +164,9 @@ def tricky_corpus(rng, n):
         doc = ('{first: %s, t: %s 1, s1: %s, l: [%s x, %s, %s], n: !del , after: %s, m: {k: %s %s, %s: 2}}'
                % (q(vals[0]), t1, q(vals[1]), t2, q(vals[2]), q(vals[3]), q(vals[4]), t2, q(vals[0]), q(vals[1] or 'e')))
         base_doc = '{first: 0, s1: old, l: [1, 2, 3], n: 5, m: {k: 1}}'
+        fl = [rng.choice(FLOATS) for _ in range(3)]
+        fdoc = '{f1: %s %s, f2: %s, l: [%s %s, 1], m: {k: %s %s}}' % (t1 if t1 != '!del' else '!weak', fl[0], fl[1], t2, fl[2], t2, fl[0])
+        out.append(dict(texts=[base_doc, fdoc], pos=1))
         out.append(dict(texts=[base_doc, doc], pos=1))
         out.append(dict(texts=[doc, '{after: !weak z, extra: 1}'], pos=0))
     return out
